@@ -3,7 +3,8 @@ from dataclasses import dataclass, field
 from typing import TYPE_CHECKING, Dict, List, Optional, Tuple
 
 from .encoding import Encoding, get_string_encoding
-from .exceptions import DecodeError, odxassert, odxraise, strict_mode
+from . import exceptions
+from .exceptions import DecodeError, odxassert, odxraise
 from .odxtypes import AtomicOdxType, DataType, ParameterValue
 
 try:
@@ -114,11 +115,17 @@ class DecodeState:
         # ... string types, ...
         elif base_data_type in (DataType.A_UTF8STRING, DataType.A_ASCIISTRING,
                                 DataType.A_UNICODE2STRING):
-            text_errors = 'strict' if strict_mode else 'replace'
             str_encoding = get_string_encoding(base_data_type, base_type_encoding,
                                                is_highlow_byte_order)
             if str_encoding is not None:
-                internal_value = raw_value.decode(str_encoding, errors=text_errors)
+                try:
+                    internal_value = raw_value.decode(str_encoding, errors='strict')
+                except UnicodeError as e:
+                    # note that the strict mode flag must be evaluated
+                    # at run time, not when this module is imported
+                    if exceptions.strict_mode:
+                        raise DecodeError(f"Cannot decode string object: {e}")
+                    internal_value = raw_value.decode(str_encoding, errors='replace')
             else:
                 internal_value = "ERROR"
 
